@@ -571,3 +571,127 @@ Proof.
   apply andb_true_iff in B. destruct B as [_ B2]. apply Z.ltb_lt in B2.
   simpl in HI, HC. split; [lia|]. split; [lia|]. right. exists cap, cnt. auto.
 Qed.
+
+(* ================================================================ FRAME: every member of ArrayBucket that writes mPtr *)
+(* Two buckets (this, other) and ALL members that can touch mPtr or the state byte: AddBackCrt / RemoveBack (also under
+   failure schedules), Remove(i) as used by HashMultiMap, RemoveAll, Clear, the copy constructor, the move constructor,
+   move assignment and Swap.  GetBounds / pvGet* only read.  A move assignment into a non-null bucket trips the
+   MOMO_ASSERT(mPtr == nullptr) of ~ArrayBucket (the temporary holds the old value): it is never made (HashMultiMap only
+   assigns into moved-from arrays) and is the identity here. *)
+Inductive ab2op : Type :=
+| A2 (first : bool) (o : abop)                       (* a single-bucket operation on this / other *)
+| A2AddF (first : bool) (v : Z) (fs : list bool)     (* AddBackCrt under a failure schedule *)
+| A2RemoveBackF (first : bool) (fs : list bool)      (* RemoveBack whose Shrink may fail *)
+| A2RemoveAll (first : bool)                         (* RemoveAll = pvRemoveAll<false>; Clear = pvRemoveAll<true>: same effect on mPtr *)
+| A2Swap                                             (* Swap, 241-244 *)
+| A2MoveCtor (first : bool)                          (* a new object move-constructed from this (replaces other) / from other *)
+| A2MoveAssign (first : bool)                        (* other = std::move(this) / this = std::move(other) *)
+| A2CopyCtor (first : bool).                         (* a new object copy-constructed from this / from other *)
+
+Definition on_side (first : bool) (f : ab -> ab) (s : ab * ab) : ab * ab :=
+  if first then (f (fst s), snd s) else (fst s, f (snd s)).
+
+Definition ab_add_f (M : Z) (v : Z) (fs : list bool) (a : ab) : ab :=
+  let '(r', threw, _) := add_back_f M (fst a) fs in
+  if threw then a else (r', snd a ++ [v]).
+
+Definition ab_remove_back_f (fs : list bool) (a : ab) : ab :=
+  if (0 <? length (snd a))%nat then (fst (remove_back_f (fst a) fs), removelast (snd a)) else a.
+
+Definition ab2_step (M : Z) (s : ab * ab) (o : ab2op) : ab * ab :=
+  match o with
+  | A2 first o1 => on_side first (fun a => ab_step M a o1) s
+  | A2AddF first v fs => on_side first (ab_add_f M v fs) s
+  | A2RemoveBackF first fs => on_side first (ab_remove_back_f fs) s
+  | A2RemoveAll first => on_side first ab_clear s
+  | A2Swap => (snd s, fst s)
+  | A2MoveCtor first => if first then (ab_null, fst s) else (snd s, ab_null)
+  | A2MoveAssign first =>
+      if first then (if is_null (fst (snd s)) then (ab_null, fst s) else s)
+      else (if is_null (fst (fst s)) then (snd s, ab_null) else s)
+  | A2CopyCtor first => if first then (fst s, ab_copy M (fst s)) else (ab_copy M (snd s), snd s)
+  end.
+
+(* the same operations on plain lists *)
+Definition ref2_step (s : list Z * list Z) (nulls : bool * bool) (o : ab2op) : list Z * list Z :=
+  match o with
+  | A2 first o1 => if first then (ref_step (fst s) o1, snd s) else (fst s, ref_step (snd s) o1)
+  | A2AddF _ _ _ => s     (* see ab2_step_content: appended unless it threw *)
+  | A2RemoveBackF first _ => if first then (removelast (fst s), snd s) else (fst s, removelast (snd s))
+  | A2RemoveAll first => if first then ([], snd s) else (fst s, [])
+  | A2Swap => (snd s, fst s)
+  | A2MoveCtor first => if first then ([], fst s) else (snd s, [])
+  | A2MoveAssign first =>
+      if first then (if snd nulls then ([], fst s) else s) else (if fst nulls then (snd s, []) else s)
+  | A2CopyCtor first => if first then (fst s, fst s) else (snd s, snd s)
+  end.
+
+Lemma ab_add_f_inv M v fs a : 0 < M < 16 -> ab_inv M a -> ab_inv M (ab_add_f M v fs a).
+Proof.
+  intros HM H. unfold ab_add_f. pose proof (add_back_f_spec M (fst a) fs) as S.
+  destruct (add_back_f M (fst a) fs) as [[r' threw] fs']. destruct threw; [exact H|].
+  destruct S as [_ S]. rewrite (S eq_refl). apply (ab_add_inv M HM v a H).
+Qed.
+
+Lemma ab_remove_back_f_inv M fs a : 0 < M < 16 -> ab_inv M a -> ab_inv M (ab_remove_back_f fs a).
+Proof.
+  intros HM [HI HC]. unfold ab_remove_back_f. destruct (Nat.ltb_spec 0 (length (snd a))); [|split; auto].
+  destruct (remove_back_f_spec M (fst a) fs HI ltac:(lia)) as (I' & C' & _).
+  split; simpl; [exact I'|]. rewrite C', HC.
+  destruct (snd a) as [|x l] eqn:E; [simpl in H; lia|].
+  assert (x :: l <> []) as NE by discriminate.
+  pose proof (app_removelast_last 0 NE) as AL. apply (f_equal (@length Z)) in AL. rewrite app_length in AL. simpl in AL.
+  simpl length. lia.
+Qed.
+
+(* FRAME theorem: whatever member is called on either bucket, both stay in a legal representation whose stored count
+   is the length of the content *)
+Theorem ab2_frame M s o : 0 < M < 16 -> ab_inv M (fst s) -> ab_inv M (snd s) ->
+  ab_inv M (fst (ab2_step M s o)) /\ ab_inv M (snd (ab2_step M s o)).
+Proof.
+  intros HM HA HB. destruct s as [a b]. simpl in HA, HB.
+  destruct o as [f o1|f v fs|f fs|f| |f|f|f]; simpl; try destruct f; simpl; auto using ab_step_inv, ab_add_f_inv, ab_remove_back_f_inv, ab_null_inv, ab_copy_inv.
+  - split; auto. apply ab_clear_inv with (M := M); auto.
+  - split; auto. apply ab_clear_inv with (M := M); auto.
+  - destruct (is_null (fst b)); simpl; auto using ab_null_inv.
+  - destruct (is_null (fst a)); simpl; auto using ab_null_inv.
+Qed.
+
+Definition ab2_run (M : Z) (ops : list ab2op) : ab * ab := fold_left (ab2_step M) ops (ab_null, ab_null).
+
+Theorem ab2_frame_all_histories M ops : 0 < M < 16 ->
+  ab_inv M (fst (ab2_run M ops)) /\ ab_inv M (snd (ab2_run M ops)).
+Proof.
+  intros HM. unfold ab2_run.
+  assert (forall s, ab_inv M (fst s) /\ ab_inv M (snd s) ->
+            ab_inv M (fst (fold_left (ab2_step M) ops s)) /\ ab_inv M (snd (fold_left (ab2_step M) ops s))) as G.
+  { induction ops as [|o r IH]; intros s [A B]; simpl; auto. apply IH. apply ab2_frame; auto. }
+  apply G. split; apply ab_null_inv.
+Qed.
+
+(* content: moves move, copies copy, Swap swaps, a throwing AddBackCrt adds nothing, a swallowed Shrink failure loses nothing *)
+Theorem ab2_content M s o : ab_inv M (fst s) -> ab_inv M (snd s) ->
+  let s' := ab2_step M s o in
+  match o with
+  | A2AddF first v fs =>
+      let a := if first then fst s else snd s in
+      let a' := if first then fst s' else snd s' in
+      (snd a' = snd a \/ snd a' = snd a ++ [v]) /\ (if first then snd s' = snd s else fst s' = fst s)
+  | _ => (snd (fst s'), snd (snd s')) =
+         ref2_step (snd (fst s), snd (snd s)) (is_null (fst (fst s)), is_null (fst (snd s))) o
+  end.
+Proof.
+  intros HA HB. destruct s as [a b]. destruct o as [f o1|f v fs|f fs|f| |f|f|f]; simpl.
+  - destruct f; simpl; rewrite ab_step_vals; reflexivity.
+  - destruct f; simpl; (split; [|reflexivity]); unfold ab_add_f;
+      [destruct (add_back_f M (fst a) fs) as [[r' threw] fs']|destruct (add_back_f M (fst b) fs) as [[r' threw] fs']];
+      destruct threw; simpl; auto.
+  - destruct f; simpl; unfold ab_remove_back_f.
+    + destruct (Nat.ltb_spec 0 (length (snd a))); simpl; auto. destruct (snd a); [reflexivity|simpl in H; lia].
+    + destruct (Nat.ltb_spec 0 (length (snd b))); simpl; auto. destruct (snd b); [reflexivity|simpl in H; lia].
+  - destruct f; reflexivity.
+  - reflexivity.
+  - destruct f; reflexivity.
+  - destruct f; simpl; [destruct (is_null (fst b))|destruct (is_null (fst a))]; reflexivity.
+  - destruct f; reflexivity.
+Qed.
